@@ -8,7 +8,7 @@
 use std::fs::File;
 use std::io;
 use std::ops::{Deref, DerefMut};
-use std::os::unix::io::{FromRawFd, IntoRawFd};
+use std::os::unix::io::{AsRawFd, FromRawFd, IntoRawFd};
 use std::result::Result;
 use std::sync::atomic::Ordering;
 use std::sync::{Arc, Mutex, MutexGuard, RwLock, RwLockReadGuard, RwLockWriteGuard};
@@ -254,6 +254,21 @@ impl<M: GuestAddressSpace> VringState<M> {
         }
 
         if let Some(kick) = &self.kick {
+            // The wake-up may be stale: it can stem from a kick fd that has been replaced by
+            // SET_VRING_KICK in the meantime. Never block on (or fail because of) a kick fd
+            // that has nothing to read while holding the vring lock.
+            let mut pollfd = libc::pollfd {
+                fd: kick.as_raw_fd(),
+                events: libc::POLLIN,
+                revents: 0,
+            };
+            // SAFETY: Safe because pollfd is valid and we check the return value.
+            let ready = unsafe { libc::poll(&mut pollfd, 1, 0) };
+            if ready < 0 {
+                return Err(io::Error::last_os_error());
+            } else if ready == 0 || (pollfd.revents & libc::POLLIN) == 0 {
+                return Ok(false);
+            }
             #[cfg(feature = "verif-hooks")]
             vhost::verif::wait_readable(
                 std::os::unix::io::AsRawFd::as_raw_fd(kick),
